@@ -1,0 +1,20 @@
+//go:build verif
+
+package reader
+
+import (
+	"github.com/zilliztech/milvus-cdc/core/api"
+	"github.com/zilliztech/milvus-cdc/core/util"
+)
+
+// VerifChannelMapping calls f with the channel mapping and the forward counts of a channel manager
+// while the manager's channel lock is held (read-only use).
+func VerifChannelMapping(m api.ChannelManager, f func(mapping *util.ChannelMapping, forward map[string]int)) {
+	r, ok := m.(*replicateChannelManager)
+	if !ok {
+		return
+	}
+	r.channelLock.Lock()
+	defer r.channelLock.Unlock()
+	f(r.channelMapping, r.channelForwardMap)
+}
